@@ -87,7 +87,9 @@ def oracle(p, c, o):
             # the group had already begun stopping by itself (policy met, body or member failure,
             # an enclosing timeout) when the cancel came: one of its members had been cancelled
             # by it before (cancel requests on the harness's own member tasks)
-            stopping = any(m['cancel_seen'] is not None and m['cancel_seen'] < hit for m in ms)
+            # (order of the requests, not their times: both can fall into the same instant)
+            hit_seq = o.get('cancel_seq') if g['owned_by_program'] else g['owner_member']['cancel_seq']
+            stopping = any(m['cancel_seq'] is not None and m['cancel_seq'] < hit_seq for m in ms)
             # members still running when the group was left
             left = [i for i, m in enumerate(ms)
                     if m['finished'] is None or m['finished'] > g['t']]
@@ -372,23 +374,32 @@ def run_session_case(repo, case, cancel):
             obs['res'] = type(task.exception()).__name__
         else:
             obs['res'] = 'ok'
+        # tear-down: the task running process_messages() (inside the session's own TaskGroup) is
+        # cancelled from outside as well and must end
+        obs['pump'] = 'pending'
         pump.cancel()
         try:
             await pump
         except BaseException:       # noqa
             pass
+        obs['pump'] = 'cancelled' if pump.cancelled() else 'ended'
     try:
         vloop.run(top())
-    except vloop.Deadlock:
-        obs['res'] = 'Deadlock'
-    except vloop.Livelock:
-        obs['res'] = 'Livelock'
+    except (vloop.Deadlock, vloop.Livelock) as e:
+        if obs.get('pump') == 'pending':
+            obs['pump'] = type(e).__name__
+        else:
+            obs['res'] = type(e).__name__
     return obs
 
 
 def session_oracle(case, cancel, o):
+    if o.get('pump') in ('Deadlock', 'Livelock'):
+        return [('c12:session-pump-hang',
+                 f'the task running session.process_messages() (inside the session\'s TaskGroup) '
+                 f'was cancelled from outside and never finishes: {o["pump"]}')]
     if o['res'] in ('Deadlock', 'Livelock', 'still-running'):
-        return [('c12:session-hang', f'cancelled session task never finishes: {o["res"]}')]
+        return [('c12:session-hang', f'{case["kind"]}: the session task never finishes: {o["res"]}')]
     if o.get('deliv') and (o['res'] != 'C' or not o['task_cancelled']):
         return [('c12:session-cancel-replaced',
                  f'{case["kind"]}: task.cancel() at {cancel} was delivered (the task was inside the '
@@ -448,14 +459,14 @@ def run(ctx):
     res['scopes']['corpus'] = len(corp)
     # session tasks
     kinds = len(SESSION_KINDS)
-    ns = (600 if ctx.tier == 'thorough' else 200) if ctx.deep else 40
+    ns = (1500 if ctx.tier == "thorough" else 200) if ctx.deep else 40
     scases = [gen_session_case(rng) for _ in range(ns)]
     for i, sc in enumerate(scases[:kinds]):
         sc['kind'] = SESSION_KINDS[i]           # every kind at least once
     evaluate_sessions(ctx, scases, res)
     res['scopes']['session_cases'] = ns
     # task groups: model language, then the wider one
-    ng = (12000 if ctx.tier == 'thorough' else 3000) if ctx.deep else 400
+    ng = (40000 if ctx.tier == "thorough" else 3000) if ctx.deep else 400
     gprogs = []
     while len(gprogs) < ng:
         p = T.gen_group(rng, 4)
@@ -463,7 +474,7 @@ def run(ctx):
             gprogs.append(p)
     evaluate(ctx, gprogs, res, mode='events', tag='groups')
     res['scopes']['group_programs'] = ng
-    nx = (12000 if ctx.tier == 'thorough' else 3000) if ctx.deep else 400
+    nx = (40000 if ctx.tier == "thorough" else 3000) if ctx.deep else 400
     evaluate(ctx, [gen_groupx(rng) for _ in range(nx)], res, mode='events', use_model=False,
              tag='groupx')
     res['scopes']['wider_group_programs'] = nx
